@@ -1,0 +1,13 @@
+//go:build verif
+
+package multiterm
+
+// VerifSetTermSize makes the package believe it is attached to a terminal of
+// the given size (normally only captured from a real TTY in init()).
+// It returns the previous size. AutoTrim is an exported variable and is set
+// by the caller.
+func VerifSetTermSize(rows, cols int) (prevRows, prevCols int) {
+	prevRows, prevCols = computedRows, computedCols
+	computedRows, computedCols = rows, cols
+	return
+}
